@@ -9,6 +9,6 @@ sed -i "$E" "$F"
 if git diff --quiet; then echo "MUTATION DID NOT APPLY"; exit 8; fi
 git diff | grep '^[+-]' | grep -v '^+++\|^---' | head -6
 if ! go build "./$(dirname "$F")/" 2>&1 | head -5 | grep . ; then
-  /verif/bin/mitumvet -noselftest -property "$P" -evidence /tmp/mut-ev.json | grep -v "^VIOLATION" | grep -v "^KNOWN-FINDING" | cut -c1-300 | head -8
+  ${MITUMVET:-/verif/bin/mitumvet} -noselftest -property "$P" -evidence /tmp/mut-ev.json | grep -v "^VIOLATION" | grep -v "^KNOWN-FINDING" | cut -c1-300 | head -8
 fi
 git checkout -- .
